@@ -475,12 +475,12 @@ class Node:
             cer_timeout = peer.cer_timeout or cer_timeout
 
         if conn.state == PEER_CONNECTED:
-            if conn.is_sender and conn.last_read_since > cea_timeout:
+            if conn.is_sender and conn.connected_since > cea_timeout:
                 self.logger.warning(
                     f"{conn} exceeded CEA timeout, closing connection")
                 self.close_connection_socket(
                     conn, DISCONNECT_REASON_FAILED_CONNECT_CE)
-            elif conn.is_receiver and conn.last_read_since > cer_timeout:
+            elif conn.is_receiver and conn.connected_since > cer_timeout:
                 self.logger.warning(
                     f"{conn} exceeded CER timeout, closing connection")
                 self.close_connection_socket(
@@ -594,6 +594,7 @@ class Node:
 
     def _flag_peer_as_connected(self, conn: PeerConnection):
         conn.state = PEER_CONNECTED
+        conn.reset_connected()
         peer = self._find_connection_peer(conn)
         if peer:
             peer.last_connect = int(time.time())
